@@ -177,11 +177,34 @@ def arms_for(rm, cls, variants, dvar, value):
     return out
 
 
+def name_selection(cond):
+    """A condition that selects species by (some view of) their name -> (the tested expression, sorted literal names | None, True when the
+    condition holds FOR the listed names).  Understood: `x in [..]` / `x not in (..)`, `x == "CO"` / `x != "CO"` (a one-name list), and an
+    `or` of such tests of the same expression.  None for anything else."""
+    if cond[0] == "cmp" and len(cond[1]) == 1 and len(cond[2]) == 2:
+        op, (lhs, rhs) = cond[1][0], cond[2]
+        if "name" not in show(lhs) and "name" in show(rhs) and op in ("Eq", "NotEq"):
+            lhs, rhs = rhs, lhs
+        if "name" not in show(lhs):
+            return None
+        if op in ("In", "NotIn"):
+            lit = sorted(x[1] for x in rhs[1]) if rhs[0] in ("list", "tuple", "set") and all(x[0] == "const" and isinstance(x[1], str) for x in rhs[1]) else None
+            return lhs, lit, op == "In"
+        if op in ("Eq", "NotEq") and rhs[0] == "const" and isinstance(rhs[1], str):
+            return lhs, [rhs[1]], op == "Eq"
+        return None
+    if cond[0] == "bool" and cond[1] == "Or":
+        parts = [name_selection(p) for p in cond[2]]
+        if all(p is not None and p[2] and p[1] is not None and p[0] == parts[0][0] for p in parts):
+            return parts[0][0], sorted({n for p in parts for n in p[1]}), True
+    return None
+
+
 def _about_law(cond) -> bool:
     """residual path conditions that select a sub-law (coefficient is zero / who is self-shielded) rather than the dispatch arm"""
     if coeff_assumption(cond, True) is not None:
         return True
-    return cond[0] == "cmp" and cond[1][0] in ("In", "NotIn") and "name" in show(cond)
+    return name_selection(cond) is not None
 
 
 def variant_text(v):
@@ -368,20 +391,19 @@ def _r2_r3(ctx, rm, pkg, allv):
                     ca = coeff_assumption(cond, pol)
                     if ca:
                         zero[ca[0]] = ca[1]
-                    elif cond[0] == "cmp" and cond[1][0] in ("In", "NotIn") and "name" in show(cond):
-                        inn = (cond[1][0] == "In") == pol
+                    elif name_selection(cond) is not None:
+                        lhs, got, positive = name_selection(cond)
+                        inn = positive == pol
                         branch = "shielded" if inn else "plain"
                         # who is shielded is part of the law: exactly the listed species, selected by their full name
                         # (Species.name carries the charge and surface prefix; basename/element views do not)
-                        lhs, rhs = cond[2]
                         want = SHIELDED.get((cls, code))
                         skey = f"{key}:shielded-species"
-                        got = None
-                        if rhs[0] in ("list", "tuple", "set") and all(x[0] == "const" for x in rhs[1]):
-                            got = sorted(x[1] for x in rhs[1])
                         if want is None or got is None:
                             ctx.unrec("R3", skey, (v.file, v.line), f"shielding selection {show(cond)[:100]} has no reference list / is not a literal list")
-                        elif not (lhs[0] == "attr" and lhs[2] == "name"):
+                        elif not (lhs[0] == "attr" and lhs[2] in ("name", "basename", "gasname", "alias")):
+                            ctx.unrec("R3", skey, (v.file, v.line), f"cannot see which view of the reactant's name selects self-shielding: {show(lhs)[:80]}")
+                        elif lhs[2] != "name":
                             ctx.bad("R3", skey, (v.file, v.line), "self-shielding is selected by something other than the reactant's full name, so species that merely share a base name (ions, surface forms) get a different law",
                                     expected=f"<first reactant>.name in {want}", found=show(cond)[:120])
                         else:
